@@ -28,6 +28,27 @@ PROPS = {
                    "checked for funding and exact refund); genesis consistency is C20",
         "assumptions": ["hashes are opaque identifiers (collision-free)"],
     },
+    "C04": {
+        "module": "ZenonVerif.Props.C04",
+        "streams": [S("ledger", 60, 3000)],
+        "rule": LEDGER_RULE,
+        "partial": "state-level theorems about the current chain of one node: reorganisation, replacement of unconfirmed "
+                   "blocks and restart (DESIGN C04-T5) are not modelled — they are covered by the stream's monitors only; "
+                   "the sequencer is modelled as the list of confirmed sends filtered by addressee, not as the stored "
+                   "front/back counters; below ReceiverMismatchEnforcementHeight only per-account at-most-once and FIFO hold (F8)",
+        "assumptions": ["hashes are opaque identifiers (collision-free): new send hashes are fresh and descendants pairwise distinct"],
+    },
+    "C09": {
+        "module": "ZenonVerif.Props.C09",
+        "streams": [S("ledger", 60, 3000)],
+        "rule": LEDGER_RULE,
+        "partial": "methods of non-token contracts are parameters of the model (status and descendants are observed inputs), so "
+                   "termination / panic-freedom of the Go methods and of the ABI decoder (DESIGN C09-T3..T5) is established by "
+                   "correspondence only; proved: complete-or-exact-refund with the contract's balance delta, the inbox advances by "
+                   "exactly one, and the refund path of a non-token contract can never fail for lack of funds; for the token "
+                   "contract the non-wedging statement is not proved (needs the invariant that the zero token standard is never issued)",
+        "assumptions": ["hashes are opaque identifiers (collision-free)"],
+    },
     "C07": {
         "module": "ZenonVerif.Props.C07",
         "streams": [S("vdb", 400, 20000)],
